@@ -93,6 +93,8 @@ def ps_hypotheses(row):
             out.append("success without progress at %d" % p)
         elif not e["ok"] and e["end"] < p:
             out.append("cursor moved backwards at %d" % p)
+        if e["end"] > len(row.get("kinds") or ""):
+            out.append("cursor beyond the end of the token list at %d" % p)
         if e.get("depth_after", 0) != 0:
             out.append("depth counter %d left after parseStatement at %d" % (e["depth_after"], p))
     return out
